@@ -25,6 +25,7 @@ type Env struct {
 	useCells    bool // resolve names through the frame's local cells (invariants)
 	paramsEntry bool // names resolve to the frame's parameters (entry values)
 	inOld       bool
+	qdepth      int
 }
 
 func (e *Env) with(name string, v Val) *Env {
@@ -226,7 +227,10 @@ func (fr *Frame) evalExpr(e Expr, env *Env) Val {
 			return Val{K: KStr, C: []string{sIte(cnd.C[0], a.C[0], b.C[0]), sIte(cnd.C[0], a.C[1], b.C[1]), sIte(cnd.C[0], a.C[2], b.C[2])}}
 		}
 		r := a
-		r.C = []string{sIte(cnd.C[0], a.C[0], b.C[0])}
+		r.C = make([]string, len(a.C))
+		for i := range a.C {
+			r.C[i] = sIte(cnd.C[0], a.C[i], b.C[i])
+		}
 		return r
 	case *ELet:
 		v := fr.evalExpr(x.Val, env)
@@ -350,7 +354,9 @@ func (fr *Frame) evalQuant(x *EQuant, env *Env) Val {
 	} else if ok {
 		pattern = "(select " + piv.C[0] + " " + j + ")"
 	}
-	body := fr.evalExpr(x.Body, env.with(x.Var, bound))
+	benv := env.with(x.Var, bound)
+	benv.qdepth = env.qdepth + 1
+	body := fr.evalExpr(x.Body, benv)
 	if body.K != KBool {
 		c.errorf("%s: quantifier body is not boolean", fr.name)
 		return boolVal("true")
@@ -441,6 +447,9 @@ func (fr *Frame) evalCall(x *ECall, env *Env) Val {
 		v := arg(0)
 		switch v.K {
 		case KStr:
+			if env.qdepth == 0 {
+				fr.assumeRange(v)
+			}
 			return intVal(v.C[2])
 		case KSlice:
 			return intVal(v.C[len(v.C)-1])
@@ -499,7 +508,7 @@ func (fr *Frame) evalCall(x *ECall, env *Env) Val {
 		if sp.Rec {
 			return fr.applyRecSpec(sp, x, env)
 		}
-		n := &Env{fr: env.fr, cur: env.cur, old: env.old, vars: map[string]Val{}, params: map[string]Val{}, results: env.results, inOld: env.inOld}
+		n := &Env{fr: env.fr, cur: env.cur, old: env.old, vars: map[string]Val{}, params: map[string]Val{}, results: env.results, inOld: env.inOld, qdepth: env.qdepth}
 		for i, p := range sp.Params {
 			n.vars[p.Name] = arg(i)
 		}
